@@ -2,6 +2,7 @@ package hap
 
 import (
 	"github.com/brutella/hc/db"
+	"os"
 )
 
 // Device is a HomeKit device with a name, private and public key.
@@ -22,11 +23,15 @@ type device struct {
 
 // NewDevice returns a client for a specific name either loaded from the database
 // or newly created.
+//
+// A new key pair is only created (and stored) when the database has no entity of that name.
+// When the entity could not be read for any other reason, the error is returned: a key pair which
+// is stored over the one which could not be read right now, is one the paired controllers do not know.
 func NewDevice(name string, database db.Database) (Device, error) {
 	var e db.Entity
 	var err error
 
-	if e, err = database.EntityWithName(name); err != nil {
+	if e, err = database.EntityWithName(name); os.IsNotExist(err) {
 		if e, err = db.NewRandomEntityWithName(name); err == nil {
 			err = database.SaveEntity(e)
 		}
